@@ -26,6 +26,12 @@ impl<'a> VCursor<'a> {
     ensures final(self).data() == old(self).data(), final(self).pos() == old(self).pos() + 4,
       r as nat == be32(old(self).data().subrange(old(self).pos() as int, (old(self).pos() + 4) as int))
   { unimplemented!() }
+  // Buf::advance panics when cnt > remaining
+  #[verifier::external_body]
+  pub fn advance(&mut self, cnt: usize)
+    requires old(self).pos() + cnt <= old(self).data().len()
+    ensures final(self).data() == old(self).data(), final(self).pos() == old(self).pos() + cnt
+  { unimplemented!() }
   #[verifier::external_body]
   pub fn copy_to_bytes(&mut self, len: usize) -> (r: Bytes)
     requires old(self).pos() + len <= old(self).data().len()
